@@ -25,7 +25,7 @@ def gen_set(rng):
         elif r < 0.75:
             pod = "ghost.pod"
         elif r < 0.82:
-            pod = "notapod"
+            pod = rng.choice(["notapod", "c1.container", "web.container", "z.container", "data.volume"])      # not a .pod, even if such a unit exists in the run
         else:
             pod = None
         ctrs.append({"stem": stem, "pod": pod, "start": rng.choice([None, None, "yes", "no", "false", "true"]),
